@@ -83,3 +83,95 @@ Proof.
   destruct (irls_final 10 p (1 - p) lam w y _ _ ww z Hn Hw Lz ltac:(lia) E) as (_ & Lz' & _).
   apply (fixed_point_is_expectile p lam w y (asym_fit OpsR p lam w y) Hp Hlam Hn Hw ltac:(rewrite F1; exact Lz') Wn W2 (F2 Hc) z' Hz').
 Qed.
+
+(** ** C06 through the asymmetric reweighting: when the loop settles, the curve is the expectile curve, and the expectile
+    curve commutes with adding a constant (the objective only sees y - z and second differences) *)
+Definition shiftr (c : R) (l : list R) : list R := map (fun v => v + c) l.
+
+Lemma atl_shift (l : list R) c i : (0 <= i < Z.of_nat (length l))%Z -> atl (shiftr c l) i = atl l i + c.
+Proof.
+  intros Hi. unfold atl, vecZ, shiftr. replace (i <? 0)%Z with false by lia.
+  rewrite (nth_indep (map (fun v => v + c) l) 0 (0 + c)) by (rewrite map_length; lia). apply (map_nth (fun v => v + c)).
+Qed.
+
+Lemma expectile_objective_shift p lam (w y z : list R) c :
+  (2 <= length y)%nat -> length z = length y ->
+  expectile_objective p (shiftr c y) w lam (shiftr c z) = expectile_objective p y w lam z.
+Proof.
+  intros Hn Hz. unfold expectile_objective, Aobj.
+  assert (length (shiftr c y) = length y) as -> by apply map_length. f_equal.
+  - apply sumn_ext. intros i Hi. rewrite !atl_shift by (rewrite ?Hz; lia).
+    replace (atl y i + c - (atl z i + c)) with (atl y i - atl z i) by ring. reflexivity.
+  - f_equal. apply sumn_ext. intros j Hj. unfold D2. rewrite !atl_shift by (rewrite Hz; lia). f_equal. ring.
+Qed.
+
+Theorem expectile_curve_shift p lam (w y z1 z2 : list R) c :
+  0 < p < 1 -> 0 < lam -> (4 <= length y)%nat -> length w = length y -> length z1 = length y -> length z2 = length y ->
+  (forall i, (0 <= i < Z.of_nat (length y))%Z -> 0 <= atl w i) ->
+  (exists a b, (0 <= a < b)%Z /\ (b < Z.of_nat (length y))%Z /\ 0 < atl w a /\ 0 < atl w b) ->
+  z1 = ws2d OpsR y lam (asym_weights OpsR p (1 - p) w y z1) ->
+  z2 = ws2d OpsR (shiftr c y) lam (asym_weights OpsR p (1 - p) w (shiftr c y) z2) ->
+  z2 = shiftr c z1.
+Proof.
+  intros Hp Hlam Hn Hw H1 H2 Wn W2 F1 F2.
+  assert (length (shiftr c y) = length y) as Ly by apply map_length.
+  assert (length (shiftr c z1) = length y) as L1 by (unfold shiftr; rewrite map_length; exact H1).
+  (* z2 is the unique minimiser for the shifted data; shift z1 attains a value not above it *)
+  destruct (fixed_point_is_expectile p lam w (shiftr c y) z2 Hp Hlam ltac:(rewrite Ly; exact Hn) ltac:(rewrite Ly; exact Hw) ltac:(rewrite Ly; exact H2)
+              ltac:(rewrite Ly; exact Wn) ltac:(rewrite Ly; exact W2) F2 (shiftr c z1) ltac:(rewrite Ly; exact L1)) as [Hmin Huniq].
+  destruct (fixed_point_is_expectile p lam w y z1 Hp Hlam Hn Hw H1 Wn W2 F1 (map (fun v => v - c) z2) ltac:(rewrite map_length; exact H2)) as [Hmin1 _].
+  rewrite (expectile_objective_shift p lam w y z1 c ltac:(lia) H1) in Hmin, Huniq.
+  (* A_y(z2 - c) = A_{y+c}(z2) *)
+  assert (shiftr c (map (fun v => v - c) z2) = z2) as Back.
+  { unfold shiftr. rewrite map_map. rewrite (map_ext (fun v => v - c + c) (fun v => v)) by (intros; ring). apply map_id. }
+  pose proof (expectile_objective_shift p lam w y (map (fun v => v - c) z2) c ltac:(lia) ltac:(rewrite map_length; exact H2)) as E. rewrite Back in E.
+  symmetry. apply Huniq. lra.
+Qed.
+
+(** and with reversing time *)
+From HDC Require Import Proofs.Ws2dLaws.
+
+Lemma atl_rev (l : list R) i : (0 <= i < Z.of_nat (length l))%Z -> atl (rev l) i = atl l (Z.of_nat (length l) - 1 - i).
+Proof. intros Hi. unfold atl. apply vecZ_rev. exact Hi. Qed.
+
+Lemma expectile_objective_rev p lam (w y z : list R) :
+  (2 <= length y)%nat -> length z = length y -> length w = length y ->
+  expectile_objective p (rev y) (rev w) lam (rev z) = expectile_objective p y w lam z.
+Proof.
+  intros Hn Hz Hw. unfold expectile_objective, Aobj. rewrite rev_length. set (n := length y) in *. f_equal.
+  - rewrite <- (sumn_rev (fun i => atl w i * rho p (atl y i - atl z i)) n).
+    apply sumn_ext. intros i Hi. rewrite !atl_rev by (rewrite ?Hz, ?Hw; fold n; lia). rewrite Hz, Hw. fold n. reflexivity.
+  - f_equal. rewrite <- (sumn_rev (fun j => D2 (atl z) j ^ 2) (n - 2)).
+    apply sumn_ext. intros j Hj. unfold D2. rewrite !atl_rev by (rewrite Hz; fold n; lia). rewrite Hz. fold n.
+    replace (Z.of_nat n - 1 - j)%Z with (Z.of_nat (n - 2) - 1 - j + 2)%Z by lia.
+    replace (Z.of_nat n - 1 - (j + 1))%Z with (Z.of_nat (n - 2) - 1 - j + 1)%Z by lia.
+    replace (Z.of_nat n - 1 - (j + 2))%Z with (Z.of_nat (n - 2) - 1 - j)%Z by lia.
+    f_equal. ring.
+Qed.
+
+Theorem expectile_curve_rev p lam (w y z1 z2 : list R) :
+  0 < p < 1 -> 0 < lam -> (4 <= length y)%nat -> length w = length y -> length z1 = length y -> length z2 = length y ->
+  (forall i, (0 <= i < Z.of_nat (length y))%Z -> 0 <= atl w i) ->
+  (exists a b, (0 <= a < b)%Z /\ (b < Z.of_nat (length y))%Z /\ 0 < atl w a /\ 0 < atl w b) ->
+  z1 = ws2d OpsR y lam (asym_weights OpsR p (1 - p) w y z1) ->
+  z2 = ws2d OpsR (rev y) lam (asym_weights OpsR p (1 - p) (rev w) (rev y) z2) ->
+  z2 = rev z1.
+Proof.
+  intros Hp Hlam Hn Hw H1 H2 Wn W2 F1 F2.
+  set (n := length y) in *.
+  assert (length (rev y) = n) as Ly by apply rev_length.
+  assert (length (rev w) = n) as Lw by (rewrite rev_length; exact Hw).
+  assert (forall i, (0 <= i < Z.of_nat n)%Z -> 0 <= atl (rev w) i) as Wn'.
+  { intros i Hi. rewrite atl_rev by (rewrite Hw; fold n; lia). apply Wn. rewrite Hw. fold n. lia. }
+  assert (exists a b, (0 <= a < b)%Z /\ (b < Z.of_nat n)%Z /\ 0 < atl (rev w) a /\ 0 < atl (rev w) b) as W2'.
+  { destruct W2 as (a & b & Hab & Hb & Wa & Wb). exists (Z.of_nat n - 1 - b)%Z, (Z.of_nat n - 1 - a)%Z.
+    repeat split; try lia; rewrite atl_rev by (rewrite Hw; fold n; lia); rewrite Hw; fold n.
+    - replace (Z.of_nat n - 1 - (Z.of_nat n - 1 - b))%Z with b by lia. exact Wb.
+    - replace (Z.of_nat n - 1 - (Z.of_nat n - 1 - a))%Z with a by lia. exact Wa. }
+  destruct (fixed_point_is_expectile p lam (rev w) (rev y) z2 Hp Hlam ltac:(rewrite Ly; exact Hn) ltac:(rewrite Ly; exact Lw) ltac:(rewrite Ly; exact H2)
+              ltac:(rewrite Ly; exact Wn') ltac:(rewrite Ly; exact W2') F2 (rev z1) ltac:(rewrite Ly, rev_length; exact H1)) as [Hmin Huniq].
+  destruct (fixed_point_is_expectile p lam w y z1 Hp Hlam Hn Hw H1 Wn W2 F1 (rev z2) ltac:(rewrite rev_length; exact H2)) as [Hmin1 _].
+  rewrite (expectile_objective_rev p lam w y z1 ltac:(fold n; lia) H1 Hw) in Hmin, Huniq.
+  pose proof (expectile_objective_rev p lam w y (rev z2) ltac:(fold n; lia) ltac:(rewrite rev_length; exact H2) Hw) as E. rewrite rev_involutive in E.
+  symmetry. apply Huniq. lra.
+Qed.
